@@ -135,6 +135,12 @@ Calls ==
      \cup {[MkCall(f, "esdtsc", "sys", <<TokArg(p[1])>>, 0) EXCEPT !.sh = p[2]] : f \in {"ESDTPause", "ESDTUnPause"}, p \in PauseToks \X PauseShards}
      \cup {MkCall("ESDTFreeze", "u0b", "u0a", <<TokArg(TokF)>>, 0), MkCall("ESDTPause", "u0b", "sys", <<TokArg(TokF)>>, 0)}
    ELSE {})
+  \cup (IF "metadst" \in Fns THEN
+     \* transfers addressed to the metachain (the ESDT system contract's address lives there): refused by all three functions
+     {MkCall("ESDTTransfer", a, "esdtsc", <<TokArg(TokF), NumArgC(1)>>, 0) : a \in Hs}
+     \cup {MkCall("ESDTNFTTransfer", a, a, <<TokArg(TokN), NumArgC(1), NumArgC(1), AddrArgC("esdtsc")>>, 0) : a \in Hs}
+     \cup {MkCall("MultiESDTNFTTransfer", a, a, <<AddrArgC("esdtsc"), NumArgC(1), TokArg(t), NumArgC(n), NumArgC(1)>>, 0) : a \in Hs, t \in {TokF, TokN}, n \in 0..1}
+   ELSE {})
   \cup (IF "nftflags" \in Fns THEN
      \* the system contract freezes / un-freezes ONE NFT holding: the key argument is token id || nonce bytes ("4e01" = (TokN, 1));
      \* the entry keeps its metadata, a frozen NFT does not move, a user attempting the same is refused
